@@ -14,6 +14,7 @@ mod report;
 mod shapes;
 mod tape;
 mod transform;
+mod verifier;
 
 use report::*;
 
@@ -28,6 +29,7 @@ type ReplayFn = fn(&serde_json::Value) -> Option<Violation>;
 fn table(id: &str) -> Option<(RunFn, ReplayFn)> {
     Some(match id {
         "C01" => (props::c01::run, props::c01::replay),
+        "C02" => (props::c02::run_check, props::c02::replay),
         "C06" => (props::c06::run, props::c06::replay),
         "C07" => (props::c07::run, props::c07::replay),
         "C08" => (props::c08::run, props::c08::replay),
@@ -63,7 +65,80 @@ fn supervise(id: &str, args: &[String]) -> ! {
         std::process::exit(2)
     });
     let pid = child.id();
-    let st = child.wait().expect("wait");
+    // watchdog: an input that keeps one worker thread busy for minutes is a hang candidate
+    let stale_after = std::time::Duration::from_secs(150);
+    let mut hang: Option<std::path::PathBuf> = None;
+    let st = loop {
+        match child.try_wait() {
+            Ok(Some(st)) => break st,
+            Ok(None) => {}
+            Err(e) => {
+                eprintln!("wait: {e}");
+                std::process::exit(2)
+            }
+        }
+        std::thread::sleep(std::time::Duration::from_millis(400));
+        if let Ok(rd) = std::fs::read_dir(&jdir) {
+            for e in rd.filter_map(|e| e.ok()) {
+                let p = e.path();
+                if !p.file_name().and_then(|n| n.to_str()).map(|n| n.starts_with(&format!("{pid}-"))).unwrap_or(false) {
+                    continue;
+                }
+                let old = e.metadata().ok().and_then(|m| m.modified().ok()).and_then(|t| t.elapsed().ok()).map(|d| d > stale_after).unwrap_or(false);
+                if old {
+                    let text = std::fs::read_to_string(&p).unwrap_or_default();
+                    if !text.starts_with("done\n") {
+                        hang = Some(p);
+                    }
+                }
+            }
+        }
+        if hang.is_some() {
+            let _ = child.kill();
+            let _ = child.wait();
+            break std::process::ExitStatus::default();
+        }
+    };
+    if let Some(f) = hang {
+        let text = std::fs::read_to_string(&f).unwrap_or_default();
+        let (tag, body) = text.split_once('\n').unwrap_or(("eval", ""));
+        let probe_file = f.with_extension("probe");
+        let _ = std::fs::write(&probe_file, &text);
+        let mut pc = std::process::Command::new(&exe).arg(id).arg("--probe").arg(&probe_file).arg("--child").spawn().expect("probe");
+        let started = std::time::Instant::now();
+        let mut finished = false;
+        while started.elapsed() < std::time::Duration::from_secs(60) {
+            if let Ok(Some(_)) = pc.try_wait() {
+                finished = true;
+                break;
+            }
+            std::thread::sleep(std::time::Duration::from_millis(200));
+        }
+        let _ = pc.kill();
+        let _ = pc.wait();
+        let _ = std::fs::remove_dir_all(&jdir);
+        if finished {
+            eprintln!("watchdog: a worker made no progress for {}s but its input finishes in a fresh process (machinery failure, inconclusive)", stale_after.as_secs());
+            std::process::exit(2);
+        }
+        let v = Violation {
+            property: id.to_string(),
+            driver: "supervisor".into(),
+            class: "hang".into(),
+            case: serde_json::json!({"kind": "process-death", "tag": tag, "text": body}),
+            expected: "evaluation terminates (lexing, parsing and compiling always do; the VM runs under an instruction budget)".into(),
+            observed: "no progress for minutes in the check and for 60 s alone in a fresh process".into(),
+        };
+        let dir = verif_dir();
+        let _ = std::fs::create_dir_all(dir.join("replays"));
+        let name = format!("replays/{}-{:016x}.json", id, hash_str(&format!("{}", v.case)));
+        let path = dir.join(&name);
+        let _ = std::fs::write(&path, serde_json::to_string_pretty(&v.to_json()).unwrap());
+        println!("VIOLATION property={} replay={}", id, path.display());
+        println!("  driver=supervisor class=hang");
+        println!("  case={}", v.case);
+        std::process::exit(1);
+    }
     let journal: Vec<std::path::PathBuf> = std::fs::read_dir(&jdir)
         .map(|d| d.filter_map(|e| e.ok()).map(|e| e.path()).filter(|p| p.file_name().and_then(|n| n.to_str()).map(|n| n.starts_with(&format!("{pid}-"))).unwrap_or(false)).collect())
         .unwrap_or_default();
